@@ -360,13 +360,26 @@ func main() {
 }
 
 // allocsPerRun: average number of heap allocations per call of f (runtime.MemStats.Mallocs delta).
+// allocsPerRun: mallocs per call of f. runtime.MemStats counts the whole process, so mallocs of other goroutines (GC
+// workers, the output writer) can fall between the two readings: the MINIMUM over several attempts is reported — a function
+// that does not allocate has an attempt without strays, a function that allocates shows at least `runs` mallocs every time.
 func allocsPerRun(runs int, f func()) float64 {
 	f() // warm up
-	var m0, m1 runtime.MemStats
-	runtime.ReadMemStats(&m0)
-	for i := 0; i < runs; i++ {
-		f()
+	best := -1.0
+	for attempt := 0; attempt < 7; attempt++ {
+		var m0, m1 runtime.MemStats
+		runtime.ReadMemStats(&m0)
+		for i := 0; i < runs; i++ {
+			f()
+		}
+		runtime.ReadMemStats(&m1)
+		a := float64(m1.Mallocs-m0.Mallocs) / float64(runs)
+		if best < 0 || a < best {
+			best = a
+		}
+		if best == 0 {
+			break
+		}
 	}
-	runtime.ReadMemStats(&m1)
-	return float64(m1.Mallocs-m0.Mallocs) / float64(runs)
+	return best
 }
